@@ -15,3 +15,4 @@ def check(A):
     C02.check(A, only_decode=True, prefix='C14')
     R.asgi_rules(A, 'C14', buffering_rule='C14')
     R.asgi_read_rule(A, 'C14')
+    R.asgi_body_rule(A, 'C14')
